@@ -141,16 +141,19 @@ public:
 
 	bool emptyQueue() const
 	{
+		EVENTPP_VERIF_POINT("hetereventqueue.emptyqueue.unlocked-read", this);
 		return queueList.empty() && (queueEmptyCounter.load(std::memory_order_acquire) == 0);
 	}
 
 	void clearEvents()
 	{
+		EVENTPP_VERIF_POINT("hetereventqueue.unlocked-empty-check", this);
 		if(! queueList.empty()) {
 			BufferedItemList tempList;
 
 			{
 				std::lock_guard<Mutex> queueListLock(queueListMutex);
+				EVENTPP_VERIF_POINT("hetereventqueue.locked.queuelist", this);
 				std::swap(queueList, tempList);
 			}
 
@@ -160,6 +163,7 @@ public:
 				}
 
 				std::lock_guard<Mutex> queueListLock(freeListMutex);
+				EVENTPP_VERIF_POINT("hetereventqueue.locked.freelist", this);
 				freeList.splice(freeList.end(), tempList);
 			}
 		}
@@ -167,6 +171,7 @@ public:
 
 	bool process()
 	{
+		EVENTPP_VERIF_POINT("hetereventqueue.unlocked-empty-check", this);
 		if(! queueList.empty()) {
 			BufferedItemList tempList;
 
@@ -176,6 +181,7 @@ public:
 
 			{
 				std::lock_guard<Mutex> queueListLock(queueListMutex);
+				EVENTPP_VERIF_POINT("hetereventqueue.locked.queuelist", this);
 				std::swap(queueList, tempList);
 			}
 
@@ -186,6 +192,7 @@ public:
 				}
 
 				std::lock_guard<Mutex> queueListLock(freeListMutex);
+				EVENTPP_VERIF_POINT("hetereventqueue.locked.freelist", this);
 				freeList.splice(freeList.end(), tempList);
 
 				return true;
@@ -197,6 +204,7 @@ public:
 
 	bool processOne()
 	{
+		EVENTPP_VERIF_POINT("hetereventqueue.unlocked-empty-check", this);
 		if(! queueList.empty()) {
 			BufferedItemList tempList;
 
@@ -206,6 +214,7 @@ public:
 
 			{
 				std::lock_guard<Mutex> queueListLock(queueListMutex);
+				EVENTPP_VERIF_POINT("hetereventqueue.locked.queuelist", this);
 				if(! queueList.empty()) {
 					tempList.splice(tempList.end(), queueList, queueList.begin());
 				}
@@ -217,6 +226,7 @@ public:
 				item.clear();
 
 				std::lock_guard<Mutex> queueListLock(freeListMutex);
+				EVENTPP_VERIF_POINT("hetereventqueue.locked.freelist", this);
 				freeList.splice(freeList.end(), tempList);
 
 				return true;
@@ -229,6 +239,7 @@ public:
 	template <typename F>
 	bool processIf(F && func)
 	{
+		EVENTPP_VERIF_POINT("hetereventqueue.unlocked-empty-check", this);
 		if(queueList.empty()) {
 			return false;
 		}
@@ -301,6 +312,7 @@ private:
 
 		{
 			std::lock_guard<Mutex> queueListLock(queueListMutex);
+			EVENTPP_VERIF_POINT("hetereventqueue.locked.queuelist", this);
 			std::swap(queueList, tempList);
 		}
 
@@ -332,11 +344,13 @@ private:
 
 			if (! tempList.empty()) {
 				std::lock_guard<Mutex> queueListLock(queueListMutex);
+				EVENTPP_VERIF_POINT("hetereventqueue.locked.queuelist", this);
 				queueList.splice(queueList.begin(), tempList);
 			}
 
 			if(! idleList.empty()) {
 				std::lock_guard<Mutex> queueListLock(freeListMutex);
+				EVENTPP_VERIF_POINT("hetereventqueue.locked.freelist", this);
 				freeList.splice(freeList.end(), idleList);
 
 				return true;
@@ -420,9 +434,11 @@ private:
 	void doEnqueueItem(T && item)
 	{
 		BufferedItemList tempList;
+		EVENTPP_VERIF_POINT("hetereventqueue.unlocked-freelist-check", this);
 		if(! freeList.empty()) {
 			{
 				std::lock_guard<Mutex> queueListLock(freeListMutex);
+				EVENTPP_VERIF_POINT("hetereventqueue.locked.freelist", this);
 				if(! freeList.empty()) {
 					tempList.splice(tempList.end(), freeList, freeList.begin());
 				}
@@ -437,6 +453,7 @@ private:
 		it->set(std::move(item));
 
 		std::lock_guard<Mutex> queueListLock(queueListMutex);
+		EVENTPP_VERIF_POINT("hetereventqueue.locked.queuelist", this);
 		queueList.splice(queueList.end(), tempList, it);
 	}
 
